@@ -309,6 +309,15 @@ class Ctx:
     def fail(self, label, detail=None):
         return self.check(False, label, detail)
 
+    def known(self, label, detail=None):
+        """The path shows a defect listed in known_findings.jsonl: record one witness per exploration (it is replayed like any
+        counterexample and printed as KNOWN-FINDING); the caller skips its assertions on this path."""
+        label = "kf:" + label
+        self.notes[label] = self.notes.get(label, 0) + (0 if self.replaying() else 1)
+        if self.replaying() or any(v.label == label for v in self.violations):
+            return
+        self._violation(label, self.get_model(), detail)
+
     def _violation(self, label, model, detail):
         inputs = self.concretise_inputs(model)
         if callable(detail):
@@ -1121,7 +1130,7 @@ def explore(fn, *, timeout_ms=60000, max_paths=200000, max_decisions=20000, max_
                     break
             if outcome == "done":
                 c.stats.paths += 1
-            if len(c.violations) >= max_violations:
+            if len([v for v in c.violations if not v.label.startswith("kf:")]) >= max_violations:
                 break
             if len(res.inconclusive) >= 20:
                 break
